@@ -21,7 +21,10 @@ META = dict(
         "un-applied children are walked, and the fall-back arm walks the full trie with the "
         "original start; R3 slice masks under-approximate: a token enters a slice mask only if it "
         "is non-empty and fully matches the slice regex, the residual masks are obtained by "
-        "subtraction (never union), and the tries are filtered from exactly those masks."
+        "subtraction (never union), and the tries are filtered from exactly those masks; R4 the "
+        "containment question behind the shortcut compares the slice regex with the residual regex "
+        "stored for the current lexer state (rx_sets[state]), answers true only on a positive "
+        "containment result, and is forwarded unchanged by Lexer::check_subsume."
     ),
     not_decided=(
         "soundness of derivre's containment check (is_contained_in_prefixes) and the combinatorics "
@@ -30,8 +33,62 @@ META = dict(
 )
 
 
+def subsume_operands(ctx, R):
+    """The containment question behind the slice shortcut must be `slice regex  ⊆  what is LEFT of a live lexeme
+    in THIS lexer state`: the small operand is get_rx(lexeme_idx), the big operand is the derivative stored in the
+    state's (lexeme, derivative) list rx_sets[state] — not the lexeme's regex from its beginning — and `true` is
+    returned only after a positive containment answer (an error counts as not contained).  Shared by C01 (a mask
+    bit implies acceptance) and C10."""
+    P = ctx.prog
+    cs = ctx.body(RV + "::check_subsume")
+    sites = [(bi, t) for bi, t in cs.calls() if t["f"].get("def", "").endswith("::is_contained_in_prefixes")]
+    if not ctx.floor(R, "containment query in check_subsume", len(sites), 1):
+        return
+    for k, (bi, t) in enumerate(sites):
+        roles = [L.role(cs, a, depth=14) for a in t["args"]]
+        small, big = roles[3], roles[4]
+        ctx.check(small.startswith("call:get_rx(") and small.endswith(",param:3)"), R, "check_subsume:small-is-slice-regex#%d" % k,
+                  "the contained side is get_rx(lexeme_idx) of the slice's lexeme", "the contained side is %s" % small, site=cs.where(bi))
+        ok = ".rx_sets" in big and "param:2" in big and "get_rx(" not in big
+        ctx.check(ok, R, "check_subsume:big-is-state-derivative#%d" % k,
+                  "the containing side is the derivative stored for this lexer state (rx_sets[state])",
+                  "the containing side is %s, not the residual regex of the current lexer state: mid-lexeme the "
+                  "shortcut is judged against the wrong language and the slice mask is OR-ed in unsoundly" % big, site=cs.where(bi))
+    # result: `true` only under a positive answer
+    trues = []
+    res_locals = set()
+    for bi, si, st in cs.statements():
+        if st["s"] == "assign" and st["r"].get("rv") == "use" and st["r"]["o"].get("ty") == "bool" and st["r"]["o"].get("iv") == "1" \
+                and len(st["p"]) == 1 and cs.local_ty(st["p"][0]) == "bool":
+            trues.append(bi)
+            res_locals.add(st["p"][0])
+    def positive(e):
+        e = L.strip_wrappers(e)
+        if e[0] == "call" and e[1].endswith("::unwrap_or") and e[2] and e[2][0][0] == "call" and e[2][0][1].endswith("::is_contained_in_prefixes"):
+            dflt = e[2][1]
+            return dflt[0] == "const" and dflt[1] in (0, False, "false")
+        return False
+    g = L.guard_edges(cs, positive, True)
+    still = L.dominated_by_cut(cs, trues, g) if g else trues
+    ctx.check(bool(trues) and bool(g) and not still, R, "check_subsume:true-only-if-contained",
+              "the result becomes true only on the edge where is_contained_in_prefixes(..).unwrap_or(false) is true",
+              "check_subsume can answer true without a positive containment answer", site=cs.where())
+    # (self.subsumable only prunes lexemes that cannot contain a slice — `attr_has_repeat` — it is an optimisation,
+    # not a soundness condition: lazy lexemes are excluded by subsume_possible (R1); no obligation is attached to it)
+    # Lexer::check_subsume forwards the state unchanged and maps the slice index through extra_lexeme
+    lx = ctx.body("llguidance::earley::lexer::Lexer::check_subsume")
+    fw = [(bi, t) for bi, t in lx.calls() if t["f"].get("def") == RV + "::check_subsume"]
+    if ctx.floor(R, "Lexer::check_subsume forwarding call", len(fw), 1):
+        bi, t = fw[0]
+        roles = [L.role(lx, a, depth=10) for a in t["args"]]
+        ctx.check(roles[1] == "param:2" and roles[2].startswith("call:extra_lexeme(") and roles[2].endswith(",param:3)") and roles[3] == "param:4",
+                  R, "Lexer::check_subsume:forwards", "state, extra_lexeme(extra_idx) and budget are forwarded unchanged",
+                  "Lexer::check_subsume forwards %s" % roles[1:], site=lx.where(bi))
+
+
 def run(ctx):
     P = ctx.prog
+    subsume_operands(ctx, "C10-R4")
     cb = ctx.body(SBC)
     ap = ctx.body(TS + "::apply")
     # ---------------------------------------------------------------- R1
